@@ -988,6 +988,9 @@ def _auto_specs(fullname):
     return [("auto/3d", mk(3)), ("auto/2d", mk(2))]
 
 
+_SELF_STATE_OK = ("S2.s2_results", "NematicOrder.QIJ", "DumpReader.snapshots")      # documented call-order state (same list as contracts/C18.NAMED_SELF_STATE)
+
+
 def run_entry(fullname, what, seed=0, only_label=None):
     """-> replay result dict.  what in {'frame', 'history', 'file', 'all'}"""
     import numpy as np
@@ -1016,6 +1019,20 @@ def run_entry(fullname, what, seed=0, only_label=None):
                     continue
                 ran += 1
                 watch = _arrays(b["watch"], "args") + _arrays(_default_arrays(fullname), "")
+                # a method of an analysis object: the arrays the object holds (computed at construction) are inputs of the call as much as
+                # its arguments (later calls on the same object read them); documented call-order state is named in _SELF_STATE_OK
+                if not fullname.endswith(".__init__"):
+                    for cell in (getattr(b["call"], "__closure__", None) or ()):
+                        try:
+                            v = cell.cell_contents
+                        except ValueError:
+                            continue
+                        if hasattr(v, "__dict__") and type(v).__module__.startswith("PyMatterSim") and not isinstance(v, type) \
+                                and type(v).__name__ in fullname.split("."):
+                            have = {id(a) for _, a in watch}
+                            for pth, a in _arrays({k: x for k, x in vars(v).items() if f"{type(v).__name__}.{k}" not in _SELF_STATE_OK}, "self"):
+                                if id(a) not in have:
+                                    watch.append((pth, a))
                 before = [(p, a, _sig(a)) for p, a in watch]
                 exc1 = None
                 try:
